@@ -49,6 +49,9 @@ type Entry struct {
 	Dir   bool   `json:"dir"`
 	Size  int    `json:"size"`
 	Perm  uint32 `json:"perm"`
+	// Flag: the tar type flag of a regular-file entry if not the usual '0': 0 (the pre-POSIX NUL flag) or '7' (a contiguous
+	// file); archive/tar and Header.FileInfo() present both as regular files
+	Flag string `json:"flag,omitempty"`
 }
 
 type Case struct {
@@ -77,7 +80,14 @@ func buildArchive(c Case) []byte {
 			must(tw.WriteHeader(&tar.Header{Name: e.Spell, Typeflag: tar.TypeDir, Mode: int64(e.Perm)}))
 			return
 		}
-		must(tw.WriteHeader(&tar.Header{Name: e.Spell, Typeflag: tar.TypeReg, Mode: int64(e.Perm), Size: int64(e.Size)}))
+		flag := byte(tar.TypeReg)
+		switch e.Flag {
+		case "cont":
+			flag = tar.TypeCont
+		case "nul":
+			flag = tar.TypeRegA //nolint:staticcheck // the deprecated flag is what old archives carry
+		}
+		must(tw.WriteHeader(&tar.Header{Name: e.Spell, Typeflag: flag, Mode: int64(e.Perm), Size: int64(e.Size)}))
 		_, err := tw.Write(content(e.Path, e.Size))
 		must(err)
 	}
@@ -559,7 +569,8 @@ func genCase(t *rapid.T, many bool) Case {
 				big = false
 			}
 		}
-		entries = append(entries, Entry{Path: p, Size: size, Perm: rapid.SampledFrom([]uint32{0o644, 0o600, 0o755, 0o444, 0o640}).Draw(t, "perm")})
+		entries = append(entries, Entry{Path: p, Size: size, Perm: rapid.SampledFrom([]uint32{0o644, 0o600, 0o755, 0o444, 0o640}).Draw(t, "perm"),
+			Flag: rapid.SampledFrom([]string{"", "", "", "", "", "", "cont", "nul"}).Draw(t, "flag")})
 	}
 	// explicit directories: a random subset, the rest stay implicit
 	for _, d := range dirs[1:] {
